@@ -103,11 +103,17 @@ func VerifH_C06_tcp() {
 		0, 22, 0x80, 0x00, 0, 0, 0, 1, 0, 0, 0, 2, 0x50, 0x12, 0xff, 0xff, 0, 0, 0, 0)
 	err := sm.ProcessPacketData(a[:len(a):len(a)], nil)
 	verifAssert(err == nil && len(res.got) == 1, "valid TCP reply not reported exactly once")
+	first := res.got
 	res.got = nil
 	b := ndBytes("B", n)
 	b = b[:n:n]
 	c06Partition(b, vpn, 6)
 	_ = sm.ProcessPacketData(b, nil)
+	if len(first) == 1 {
+		r := first[0].(*ScanResult)
+		verifAssert(r.IP == "192.168.0.2" && r.Port == 22 && r.Flags == c06BitFlagsRef(0x50, 0x12),
+			"an already emitted record changed when a later frame was processed (shared storage)")
+	}
 	verifAssert(len(res.got) <= 1, "more than one record for one frame")
 	if len(res.got) == 0 {
 		verifCover("no-record")
